@@ -128,12 +128,9 @@ static void implChecks(Model& M, const ConsInfo& ci, vh::Rng& g, long caseNo, co
         }
         vh::P("pq_cols", K + ".pq_cols", w, 1e-10);
         Matrix PqtT = ~Pqt;
-        // calcPqTranspose vs ~calcPq: differs when a constrained q is a quaternion component (N*N^+ != 1): known finding, single
-        // key `qcons.pqt_is_transpose`; all other types keep their own key and must pass
-        {
-            const bool qcons = ci.type == cConstantCoordinate || ci.type == cCoordinateCoupler || ci.type == cPrescribedMotion || ci.type == cCustom;
-            vh::P("pqt_is_transpose", qcons ? std::string("qcons.pqt_is_transpose") : K + ".pqt_is_transpose", relErrM(Pq, PqtT), 1e-10);
-        }
+        // observed outside the property (coordinator's decision: calcPqTranspose is not among the property's operators):
+        // calcPqTranspose != ~calcPq when a constrained q is a quaternion component (N*N^+ != 1); counted into the evidence only
+        if (!(relErrM(Pq, PqtT) <= 1e-10)) vh::D("obs.pqt_ne_pq_transpose." + T);
         vh::P("pq_fd", lineTree ? std::string("line.pq_fd") : K + ".pq_fd", wfd, 1e-6);
         // Pq N == P (first mp rows of G)
         double wn = 0;
